@@ -196,6 +196,16 @@ def generate(ctx):
         r['transform'] = 'base'
         for name, q, style in g.variants(p, 3, force=('reorder-inner',)):
             recs.append(rec_from_problem(q, r['family'], 'class', truth=r['truth'], group=gid[0], transform=name, style=style))
+    # large problems (110-150 variables, a handful of constraints): caches keyed on variable ids
+    n_big = 10 if not ctx.thorough else 120
+    for i in range(n_big):
+        full, small, twin, small_twin = g.large_n(numeric=(i % 5 == 4))
+        gid[0] += 1
+        for prob, ref, tr in ((full, small, 'base'), (twin, small_twin, 'declarations-permuted')):
+            r = rec_from_problem(ref, 'large-n', 'near', group=gid[0], transform=tr)     # ground truth on the constrained variables
+            r['text'] = c02_gen.to_riddle(prob)
+            r['p'] = None
+            recs.append(r)
     # a dead disjunct with expanded inner flaws, decisions on their literals, then a backjump to root; the twin is the same
     # problem without the dead disjunct
     n_bj = 120 if not ctx.thorough else 2000
